@@ -151,15 +151,38 @@ pub fn check_cancel(sc: &Scenario, tr: &Trace) -> Result<&'static str, Fail> {
         return Err(fail(tr, "peer-never-ends", format!("the peer transaction at entity {peer} is still alive at the end")));
     }
     if !blacked_out {
-        let finished_before = [p.from, p.to].iter().any(|e| tr.finished_inds(*e, id).iter().any(|(t, _)| *t <= t_cancel));
+        // (the canceller's own Finished indication - the result of the request - falls into the same millisecond and carries the cancel condition)
+        let finished_before = [p.from, p.to]
+            .iter()
+            .any(|e| tr.finished_inds(*e, id).iter().any(|(t, f)| *t < t_cancel || (*t == t_cancel && f.report.condition != Condition::CancelReceived)));
         // can the peer hear of it? ack mode: yes. unack: a sender-side cancel travels in the EOF; a receiver-side cancel only with closure
         let closure = sc.entities[p.from].cfg.closure;
-        let peer_can_hear = !p.unack || who == p.from || closure;
+        // (an unacknowledged-mode receiver learns from the Metadata PDU that closure was requested: cancelled before it has that,
+        // it has no way - and no duty - to tell the sender)
+        let knows_closure = tr
+            .deliveries
+            .iter()
+            .any(|(t, to, di)| *to == p.to && *t < t_cancel && !tr.dgrams[*di].corrupted && kind_of(&tr.dgrams[*di].pdu) == Kind::Metadata);
+        let peer_can_hear = !p.unack || who == p.from || (closure && knows_closure);
         // the peer must have a transaction at all (a receiver that never got a PDU has nothing to cancel)
         let peer_started = !tr.inds_of(peer, id).is_empty();
         // losses of the handshake may legitimately end in abandon with another condition at the peer: require
         // the cancel condition only when nothing was lost after the cancel
-        let lossless = !tr.dgrams.iter().any(|d| d.t >= t_cancel && (d.corrupted || matches!(d.fate, Fate::Dropped(_))));
+        let lost_after = tr.dgrams.iter().filter(|d| d.t >= t_cancel && (d.corrupted || matches!(d.fate, Fate::Dropped(_)))).count();
+        // one lost PDU of the handshake is repaired by its retransmission when the limits allow one (limit >= 2 on both sides)
+        // (and the retransmission comes before anybody's inactivity limit)
+        let max_ta = sc.entities.iter().map(|e| e.cfg.ta as u64).max().unwrap_or(0);
+        let min_inact = sc.entities.iter().map(|e| e.cfg.max_count as u64 * e.cfg.ti as u64).min().unwrap_or(0);
+        // (and the canceller's retransmission count was not already used up by retransmissions before the cancel: the count of
+        // consecutive unanswered expirations is not reset by the cancel)
+        let used_before = tr
+            .emitted(who, peer)
+            .iter()
+            .filter(|d| d.t <= t_cancel && matches!(kind_of(&d.pdu), Kind::Eof | Kind::Finished))
+            .count();
+        let lossless = lost_after == 0
+            || (lost_after == 1
+                && used_before <= 1 && sc.blackouts.is_empty() && sc.entities.iter().all(|e| e.cfg.max_count >= 2) && max_ta * 1000 + 500 < min_inact * 1000);
         // a cancel can lose the race against completion: once the receiver has reported the file delivered
         // (before the cancel took effect there) the delivered outcome is what both sides may report
         let delivered = !receiver_success_times.is_empty();
@@ -180,9 +203,11 @@ pub fn check_cancel(sc: &Scenario, tr: &Trace) -> Result<&'static str, Fail> {
             })
             .map(|d| d.0)
             .min()
-            .unwrap_or(t_cancel);
+            // the notice did not get through (the one permitted loss hit it): its retransmission is due one ACK period later;
+            // a fault the peer declares before that is "before it heard of the cancel"
+            .unwrap_or(t_cancel + sc.entities.iter().map(|e| e.cfg.ta as u64).max().unwrap_or(0) * 1000 + 4 * sc.tau_ms + sc.lat_ms + 10);
         let fault_before = [p.from, p.to].iter().any(|e| {
-            let limit = if *e == peer { t_heard.max(t_cancel) + 2 } else { t_cancel + 2 };
+            let limit = if *e == peer { t_heard.max(t_cancel).saturating_add(2) } else { t_cancel + 2 };
             tr.inds_of(*e, id).iter().any(|r| r.t <= limit && matches!(&r.ind, Indication::Fault(_) | Indication::Abandon(_)))
         });
         // the link may also reorder: a PDU sent before the cancel that is delivered after the cancel notice can start a second
